@@ -540,9 +540,12 @@ pub fn crash_plan(prop: &str, tier: &str) -> Plan {
             [false, true].map(|lazy| json!({"mode": mode, "hist": h, "target": t, "bound": b, "lazy": lazy, "cap": if thorough { 8 } else { 5 }, "nested": thorough || !lazy, "max_per_instant": if thorough { 96 } else { 40 }}))
         })
         .collect();
+    if prop == "C03" {
+        cases.extend(kill_cases(thorough));
+    }
     sort_by_bound(&mut cases);
     let rule = match prop {
-        "C03" => "crashx: for every history of the set H3 (all histories of ≤D commits with ≤B key actions {write 1 B, write 1333 B, delete} over 4 colliding keys from seeds {empty, leaf, 20-key cluster below a depth-2 merkle page}, plus explicit rollback / reopen / overlay-commit / log-pruning / overflow-value histories; rollback enabled, log length 2, 8 KiB rollback segments, 64-bucket hash table) the last operation is executed on the real store twice — background tasks of the sync pipeline running as they come, and each of them (spawn_task on the *-sync pools, Fsyncer work) held back until some thread waits for it — with every mutating file operation recorded (submission stamp, stamp at which the issuing code learnt of its completion); for EVERY instant of the trace and EVERY subset of the operations in flight at that instant (capped: beyond `cap` in-flight operations only none/all/each single/each single missing/each prefix) the directory image is materialised and reopened with the real Nomt::open; the reopened store must show exactly the old or exactly the new state (values, root, proofs, sync_seqn from the same side; new whenever the operation had returned), decode to that state (independent decoder) and accept a follow-up commit and rollback that behave as in the model; the recovery of every image is itself recorded and cut at every instant (nested once). evaluations = traced operations; transitions = images opened.",
+        "C03" => "crashx: for every history of the set H3 (all histories of ≤D commits with ≤B key actions {write 1 B, write 1333 B, delete} over 4 colliding keys from seeds {empty, leaf, 20-key cluster below a depth-2 merkle page}, plus explicit rollback / reopen / overlay-commit / log-pruning / overflow-value histories; rollback enabled, log length 2, 8 KiB rollback segments, 64-bucket hash table) the last operation is executed on the real store twice — background tasks of the sync pipeline running as they come, and each of them (spawn_task on the *-sync pools, Fsyncer work) held back until some thread waits for it — with every mutating file operation recorded (submission stamp, stamp at which the issuing code learnt of its completion); for EVERY instant of the trace and EVERY subset of the operations in flight at that instant (capped: beyond `cap` in-flight operations only none/all/each single/each single missing/each prefix) the directory image is materialised and reopened with the real Nomt::open; the reopened store must show exactly the old or exactly the new state (values, root, proofs, sync_seqn from the same side; new whenever the operation had returned), decode to that state (independent decoder) and accept a follow-up commit and rollback that behave as in the model; the recovery of every image is itself recorded and cut at every instant (nested once). REAL PROCESS DEATH (mode kill): for the explicit histories (thorough: all of H3, both task schedules) the traced operation is re-executed in a child process that aborts (SIGABRT, no unwinding) right before its k-th mutating or syncing file operation, for EVERY k of the reference trace; the directory the dead process leaves behind must (i) equal, byte for byte, the dead process's own pre-image plus every operation its own I/O log (handed over right before the abort) shows as performed plus some subset of the operations then in flight — the conformance check of the crash model used by the cut enumeration against a real kill (goal `real-crash-state=pre+performed+subset-of-in-flight`; a mismatch is printed as a NOTE and counted, it is a statement about the model, not about the property), (ii) open at once with the real Nomt::open (the kernel released the lock), (iii) show exactly the old or the new state (new if the call had returned), and (iv) pass the same inspection as a synthesised image, including every cut of its recovery. evaluations = traced operations; transitions = images opened + processes killed.",
         "C04" => "crashx: the history set and traces of C03 under POWER-LOSS semantics: an operation is durable at instant t iff a sync of its file (its directory for create/unlink) was submitted after the issuing code had received its completion and completed before t; for every instant, every combination (capped per instant, reported) of: per file, every prefix in issue order of the non-durable size-changing operations (set_len, append — the last kept append also cut at every page boundary), every subset (capped) of the non-durable in-place page writes, at most one write torn at the 2 KiB boundary either way; per directory every prefix of non-durable creates/unlinks. Each image is reopened with the real Nomt::open and audited as in C03 (exactly old or exactly new; new once the operation returned); nested once into recovery. transitions = images opened.",
         _ => "crashx monitor: for every traced operation of the history set H3, every mutating file operation submitted before the meta fsync completes is checked against the live regions of the pre-image as decoded by the independent decoder (leaves, overflow pages, branch nodes, free-list pages of both value files; the whole hash-table file; segments / byte ranges holding live rollback records; the meta page): no write into a live ln/bbn page (only free pages or pages at/after the bump), no ht write at all, no truncation below the bump or below the end of live rollback records, no unlink of a segment holding live records; the WAL is exempt (redo log). The history set is H3 plus operations with hundreds of page writes on a free list that spans two list pages (allocations crossing from the head list page into the next, the list running dry, pages released and allocated in one commit). transitions = operations checked.",
     };
@@ -554,6 +557,21 @@ pub fn crash_plan(prop: &str, tier: &str) -> Plan {
         "file-system model: process crash = completed syscalls persist, in-flight ones are atomic per call; power loss = as stated in the rule; the seam self-check (pre-image + recorded events = real directory) runs on every traced operation".into(),
     ];
     p
+}
+
+/// Real process death at every file operation of the traced operation (see crashx::run_kill).
+pub fn kill_cases(thorough: bool) -> Vec<Value> {
+    let mut cases = vec![];
+    for (h, t, b) in crash_histories(thorough) {
+        if !thorough && b != 3 {
+            continue;
+        }
+        cases.push(json!({"mode": "kill", "hist": h, "target": t, "bound": b, "lazy": false, "nested": true}));
+        if thorough {
+            cases.push(json!({"mode": "kill", "hist": h, "target": t, "bound": b, "lazy": true, "nested": false}));
+        }
+    }
+    cases
 }
 
 fn fault_plan(thorough: bool) -> Plan {
